@@ -20,6 +20,9 @@
 //   a <lit> | p | o | n | k <lits> | s
 // reset        destroy (theories first: ~theory unregisters itself from the sat_core) and recreate everything
 // obs          the full observable state, canonical (see dump_obs)
+// mu           coverage statistics of the standing levels (see all_stats): "mu n=<levels> chk=<0/1> lra=<m/o/p>,.. idl=.. rdl=.. ov=.."
+// basis        "basis <basic LRA variables>" (diagnostics of the known finding; never compared)
+// kinds        "kinds <l|i|r|o|b per propositional variable>": which theory owns the variable
 // Every answer but the one of obs is
 //   rc=<..> lvl=<decision level> q=<queue size> vals=<T/F/U per variable> dec=<standing decisions> dead=<0/1>
 //      [lits=.. (ov)] [multi=<lra>,<idl>,<rdl> (o, n: see multi_updates)] hooks=<k:l,l|k:l,l>
@@ -265,57 +268,122 @@ static bool root_conflict()
     return false;
 }
 
-// Coverage statistic, computed BEFORE an explicit pop / next(): how many LRA bounds and how many IDL / RDL cells were
-// updated at least twice within the level that is about to be undone (the first-write-wins layers are only
-// interesting then).  Reconstructed from the trail of the level (theory propagation sees the literals in trail order):
-// LRA exactly (bounds only change in assert_lower/assert_upper called from propagate(p)); for the difference logics
-// the direct edge of each constraint literal is replayed against the cell it targets (a lower bound on the number of
-// updates of that cell, path updates are not counted).
-template <class TH, class D>
-static size_t dl_multi(TH &th, const std::vector<lit> &lv, const std::function<D(const D &)> &neg)
+// Coverage statistics ("mu", and the multi= field of o / n computed BEFORE the pop): for every standing decision level k and
+// every theory, how many bounds / distance cells / object variables were tightened AT LEAST TWICE within level k (the
+// first-write-wins undo layers are only interesting then), how many of those on top of an older FINITE value written at a
+// lower level (the pop must give that one back, not +-inf and not the intermediate value), and - difference logics - how
+// many with at least one of the updates coming through a path (a cell other than the asserted edge).
+//   LRA: exact; bounds only change in assert_lower / assert_upper called from propagate(p), p in trail order.
+//   IDL / RDL: exact; the matrix at the beginning of level k is the current matrix overlaid with the old_dists of the levels
+//     L .. k; the constraint literals of the level are replayed in trail order on that (closed) matrix: adding an edge to a
+//     closed matrix updates exactly the cells (i, j) with d(i, from) + dist + d(to, j) < d(i, j), each once.  The matrix at
+//     the end of the replay must be the matrix at the beginning of level k + 1 (chk=0 otherwise: the statistic is then void).
+//   OV: number of values removed from one domain (allows literals falsified) within the level.
+struct lstat
 {
-    if (th.layers.empty())
-        return 0;
-    std::map<std::pair<var, var>, D> cur;
-    std::map<std::pair<var, var>, int> cnt;
-    for (const auto &p : lv)
-    {
-        const auto it = th.var_dists.find(variable(p));
-        if (it == th.var_dists.end())
-            continue;
-        const auto *d = it->second;
-        const bool direct = p == d->b;
-        const std::pair<var, var> cell = direct ? std::make_pair(d->from, d->to) : std::make_pair(d->to, d->from);
-        const D dist = direct ? d->dist : neg(d->dist);
-        const auto old = th.layers.back().old_dists.find(cell);
-        if (old == th.layers.back().old_dists.end())
-            continue; // the cell was not updated at this level
-        if (!cur.count(cell))
-            cur.emplace(cell, old->second);
-        if (dist < cur.at(cell))
-        {
-            cur.at(cell) = dist;
-            cnt[cell]++;
-        }
-    }
-    size_t n = 0;
-    for (const auto &[c, k] : cnt)
-        n += k >= 2;
-    return n;
+    size_t multi = 0, older = 0, path = 0;
+};
+static std::string ls_str(const lstat &x) { return std::to_string(x.multi) + "/" + std::to_string(x.older) + "/" + std::to_string(x.path); }
+
+static std::vector<lit> level_lits(size_t k)
+{ // the trail segment of level k (1-based)
+    sat_core &sat = N->sat;
+    const size_t from = sat.trail_lim[k - 1], to = k < sat.trail_lim.size() ? sat.trail_lim[k] : sat.trail.size();
+    return std::vector<lit>(sat.trail.begin() + from, sat.trail.begin() + to);
 }
 
-static std::string multi_updates()
+static bool fin(const I &d) { return d < idl_theory::inf() && d > -idl_theory::inf(); }
+static bool fin(const inf_rational &d) { return !is_infinite(d); }
+
+template <class TH, class D>
+static std::vector<lstat> dl_stats(TH &th, const std::function<D(const D &)> &neg, bool &chk)
 {
     sat_core &sat = N->sat;
-    if (sat.root_level())
-        return "multi=0,0,0";
-    std::vector<lit> lv(sat.trail.begin() + sat.trail_lim.back(), sat.trail.end());
-    size_t n_lra = 0;
-    if (!N->lra.layers.empty())
+    const size_t L = sat.decision_level(), n = th.size();
+    std::vector<lstat> out(L);
+    if (th.layers.size() != L)
+    {
+        chk = false;
+        return out;
+    }
+    // start[k] = matrix at the beginning of level k + 1 (0-based k), start[L] = current
+    std::vector<std::vector<std::vector<D>>> start(L + 1);
+    start[L] = th._dists;
+    for (size_t k = L; k-- > 0;)
+    {
+        start[k] = start[k + 1];
+        for (const auto &[cell, old] : th.layers[k].old_dists)
+            start[k][cell.first][cell.second] = old;
+    }
+    for (size_t k = 0; k < L; ++k)
+    {
+        auto M = start[k];
+        std::map<std::pair<var, var>, int> cnt;
+        std::set<std::pair<var, var>> via_path;
+        for (const auto &p : level_lits(k + 1))
+        {
+            const auto it = th.var_dists.find(variable(p));
+            if (it == th.var_dists.end())
+                continue;
+            const auto *d = it->second;
+            const bool direct = p == d->b;
+            const var f = direct ? d->from : d->to, t = direct ? d->to : d->from;
+            const D dist = direct ? d->dist : neg(d->dist);
+            if (!(dist < M[f][t]))
+                continue;
+            std::vector<std::tuple<var, var, D>> upd;
+            for (size_t i = 0; i < n; ++i)
+                for (size_t j = 0; j < n; ++j)
+                {
+                    if (i == j)
+                        continue;
+                    const bool a_ok = i == f || fin(M[i][f]), b_ok = j == t || fin(M[t][j]);
+                    if (!a_ok || !b_ok)
+                        continue;
+                    D nd = dist;
+                    if (i != f)
+                        nd = M[i][f] + nd;
+                    if (j != t)
+                        nd = nd + M[t][j];
+                    if (nd < M[i][j])
+                        upd.emplace_back(i, j, nd);
+                }
+            for (const auto &[i, j, nd] : upd)
+            {
+                M[i][j] = nd;
+                cnt[{i, j}]++;
+                if (i != f || j != t)
+                    via_path.insert({i, j});
+            }
+        }
+        if (M != start[k + 1])
+            chk = false;
+        for (const auto &[c, m] : cnt)
+            if (m >= 2)
+            {
+                out[k].multi++;
+                out[k].older += fin(start[k][c.first][c.second]);
+                out[k].path += via_path.count(c);
+            }
+    }
+    return out;
+}
+
+static std::vector<lstat> lra_stats(bool &chk)
+{
+    sat_core &sat = N->sat;
+    const size_t L = sat.decision_level();
+    std::vector<lstat> out(L);
+    if (N->lra.layers.size() != L)
+    {
+        chk = false;
+        return out;
+    }
+    for (size_t k = 0; k < L; ++k)
     {
         std::map<size_t, inf_rational> cur;
         std::map<size_t, int> cnt;
-        for (const auto &p : lv)
+        for (const auto &p : level_lits(k + 1))
         {
             const auto it = N->lra.v_asrts.find(variable(p));
             if (it == N->lra.v_asrts.end())
@@ -326,8 +394,8 @@ static std::string multi_updates()
             const inf_rational eps(rational::ZERO, rational::ONE);
             const inf_rational val = direct ? a->v : (a->o == leq ? a->v + eps : a->v - eps);
             const size_t idx = upper ? lra_theory::ub_index(a->x) : lra_theory::lb_index(a->x);
-            const auto old = N->lra.layers.back().find(idx);
-            if (old == N->lra.layers.back().end())
+            const auto old = N->lra.layers[k].find(idx);
+            if (old == N->lra.layers[k].end())
                 continue; // not updated at this level
             if (!cur.count(idx))
                 cur.emplace(idx, old->second.value);
@@ -337,13 +405,94 @@ static std::string multi_updates()
                 cnt[idx]++;
             }
         }
-        for (const auto &[i, k] : cnt)
-            n_lra += k >= 2;
+        for (const auto &[i, m] : cnt)
+            if (m >= 2)
+            {
+                out[k].multi++;
+                out[k].older += !is_infinite(N->lra.layers[k].at(i).value);
+            }
     }
-    const size_t n_idl = dl_multi<idl_theory, I>(N->idl, lv, [](const I &d) { return -d - 1; });
-    const size_t n_rdl = dl_multi<rdl_theory, inf_rational>(N->rdl, lv, [](const inf_rational &d)
-                                                          { return -d - inf_rational(rational::ZERO, rational::ONE); });
-    return "multi=" + std::to_string(n_lra) + "," + std::to_string(n_idl) + "," + std::to_string(n_rdl);
+    return out;
+}
+
+static std::vector<lstat> ov_stats()
+{
+    sat_core &sat = N->sat;
+    const size_t L = sat.decision_level();
+    std::vector<lstat> out(L);
+    for (size_t k = 0; k < L; ++k)
+    {
+        std::map<var, int> cnt;
+        for (const auto &p : level_lits(k + 1))
+        {
+            const auto it = N->ov.is_contained_in.find(variable(p));
+            if (it == N->ov.is_contained_in.end())
+                continue;
+            for (const auto &v : it->second)
+                for (const auto &[val, a] : N->ov.assigns[v])
+                    if (variable(a) == variable(p) && p == !a)
+                        cnt[v]++;
+        }
+        for (const auto &[v, m] : cnt)
+            if (m >= 2)
+            {
+                out[k].multi++;
+                bool older = false;
+                for (const auto &[val, a] : N->ov.assigns[v])
+                    older = older || (sat.value(a) == False && sat.level[variable(a)] <= k && variable(a) != 0);
+                out[k].older += older;
+            }
+    }
+    return out;
+}
+
+struct allstats
+{
+    std::vector<lstat> lra, idl, rdl, ov;
+    bool chk = true;
+};
+static allstats all_stats()
+{
+    allstats s;
+    s.lra = lra_stats(s.chk);
+    s.idl = dl_stats<idl_theory, I>(N->idl, [](const I &d) { return -d - 1; }, s.chk);
+    s.rdl = dl_stats<rdl_theory, inf_rational>(N->rdl, [](const inf_rational &d)
+                                                 { return -d - inf_rational(rational::ZERO, rational::ONE); }, s.chk);
+    s.ov = ov_stats();
+    return s;
+}
+
+static std::string multi_updates()
+{
+    if (N->sat.root_level())
+        return "multi=0,0,0";
+    const allstats s = all_stats();
+    return "multi=" + std::to_string(s.lra.back().multi) + "," + std::to_string(s.idl.back().multi) + "," + std::to_string(s.rdl.back().multi);
+}
+
+static void dump_mu()
+{
+    const allstats s = all_stats();
+    std::ostringstream o;
+    o << "mu n=" << N->sat.decision_level() << " chk=" << (s.chk ? 1 : 0);
+    const std::pair<const char *, const std::vector<lstat> *> th[] = {{"lra", &s.lra}, {"idl", &s.idl}, {"rdl", &s.rdl}, {"ov", &s.ov}};
+    for (const auto &[name, v] : th)
+    {
+        o << " " << name << "=";
+        for (size_t k = 0; k < v->size(); ++k)
+            o << (k ? "," : "") << ls_str((*v)[k]);
+    }
+    std::cout << o.str() << std::endl;
+}
+
+// the set of basic variables of the simplex tableau (NOT part of obs: it legitimately depends on the pivots of the past)
+static void dump_basis()
+{
+    std::ostringstream o;
+    o << "basis";
+    for (const auto &[v, r] : N->lra.tableau)
+        o << " " << v;
+    std::cout << o.str() << std::endl;
 }
 
 template <class TH>
@@ -404,6 +553,17 @@ int main()
             }
             else if (cmd == "obs")
                 dump_obs();
+            else if (cmd == "mu")
+                dump_mu();
+            else if (cmd == "basis")
+                dump_basis();
+            else if (cmd == "kinds")
+            { // per propositional variable: l / i / r = relation literal of an LRA / IDL / RDL atom, o = controls an object variable, b = other
+                std::string k = "kinds ";
+                for (size_t v = 0; v < sat.assigns.size(); ++v)
+                    k += N->lra.v_asrts.count(v) ? 'l' : N->idl.var_dists.count(v) ? 'i' : N->rdl.var_dists.count(v) ? 'r' : N->ov.is_contained_in.count(v) ? 'o' : 'b';
+                std::cout << k << std::endl;
+            }
             else if (cmd == "bv")
             {
                 if (!build_ok)
